@@ -137,6 +137,12 @@ theorem records_resolve_to_projection (h : Hints) (recs : List Rec) :
     (build h recs).qrs.map (resolveQ (build h recs)) = expectedQrs h recs := resolve_build' h recs
 
 open CdnsVerif.Model.Builder in
+/-- malformed messages (no per-member hints): with their hint on, every non-empty message buffered is read back
+    unchanged – address, ports, flags, payload byte for byte – in the original order; with the hint off none is stored -/
+theorem malformed_messages_read_back (h : Hints) (recs : List Rec) :
+    (build h recs).mms.map (resolveM (build h recs)) = expectedMms h recs := resolve_build_mm h recs
+
+open CdnsVerif.Model.Builder in
 theorem stored_iff_nonempty (h : Hints) (g : GQR) (b : Blk) : (buildQ h g b).2.filled = (project h g).anySome :=
   filled_eq_anySome h g b
 
